@@ -448,6 +448,8 @@ impl Session {
                 let sched = Sched::new(policy.clone(), immediate.clone());
                 let provider = TableProvider::new(u.clone()).with_sched(sched.clone());
                 provider.vary_answers();
+                // a fifth of the universes: requests that take two scheduler completions
+                provider.two_step.set(crate::runner::hash_of(&(&*u, 2u8)) % 5 == 0);
                 let mut s = Solver::new(provider).with_runtime(SchedRuntime {
                     sched: sched.clone(),
                 });
